@@ -2,7 +2,7 @@
 import json
 from collections import Counter
 
-from .. import common, driver_sim
+from .. import common, driver_sim, driver_sched
 from ..common import Report, MachineryError, SPEC
 
 N = {"quick": 640, "thorough": 16000}
@@ -31,6 +31,12 @@ def run(tier):
         if r.violated:
             raise MachineryError(f"model MC_Sched_{name} violates {r.violated}")
     traces = driver_sim.gen_traces(N[tier], common.seed() + 606)
+    # DAG pipelines (incl. identical parallel sinks that finish in one tick in different containers) through all policies
+    extra = driver_sched.gen_traces(N[tier] // 4, common.seed() + 607, flavours=(("mixed", 0.5), ("twins", 0.5)))
+    for tr in extra:
+        for e in tr:
+            e["tid"] += 10**6
+    traces += extra
     mon = _validate(traces, rep)
     rep.traces, rep.evaluations = mon.traces, mon.lines
     rep.extra["situations"] = mon.counters
